@@ -4,6 +4,7 @@ package memfs
 
 import (
 	"bytes"
+	"errors"
 	"sync"
 
 	"github.com/goatcms/goatcore/filesystem"
@@ -85,6 +86,14 @@ func zzOp(fs filesystem.Filespace, g int, k int, val []byte) error {
 		return fs.Remove("d/r" + own) // a file that exists from the start
 	case 6:
 		return fs.RemoveAll("d/t" + own) // a non-empty directory that exists from the start
+	case 7:
+		// a stream writer on a path that is a directory is refused - and must
+		// leave nothing locked behind
+		if w, err := fs.Writer("d/t" + own); err == nil {
+			w.Close()
+			return errors.New("Writer on a directory was accepted")
+		}
+		return nil
 	}
 	return nil
 }
@@ -112,7 +121,7 @@ func ZZVerifC09Distinct() {
 	vals := make([][]byte, g)
 	errs := make([]error, g)
 	for i := 0; i < g; i++ {
-		kinds[i] = nd.IntRange("kind", 0, 6)
+		kinds[i] = nd.IntRange("kind", 0, 7)
 		vals[i] = nd.Bytes("val", 1)
 	}
 	var wg sync.WaitGroup
@@ -153,6 +162,8 @@ func ZZVerifC09Distinct() {
 		}
 	}
 	nd.Assert(fs.IsFile("d/zkeep") && zzListed(fs, "d", "zkeep"), "C09/distinct-bystander-survives")
+	// the shared directory is still usable (nothing stayed locked)
+	nd.Assert(fs.WriteFile("d/last", []byte("l"), filesystem.DefaultUnixFileMode) == nil, "C09/distinct-directory-usable-afterwards")
 	nd.Assert(zzNoDup(fs, "d") && zzNoDup(fs, "."), "C09/listing-duplicates")
 	nd.Assert(zzIndexConsistent(fs.root), "C09/index-consistent")
 	nd.Reach("C09/distinct-end")
